@@ -65,3 +65,6 @@ func writeRule(sb *strings.Builder, name string, r jschema.RuleASTNode, o astOpt
 		writeRule(sb, fmt.Sprintf("[%d]", i), it, astOpts{IgnoreComments: o.IgnoreComments}, depth+1)
 	}
 }
+
+// ASTString is the exported canonical rendering (debug tools).
+func ASTString(n jschema.ASTNode) string { return astString(n, astOpts{}) }
